@@ -22,6 +22,7 @@ import (
 
 	"verifharness/bridge"
 	"verifharness/lang"
+	"verifharness/tv"
 )
 
 // program is one script under test (rendered; re-runnable without rapid).
@@ -325,26 +326,19 @@ func runPlan(c *tengo.Compiled, pl plan, getVar string) *outcome {
 		ctxErr error
 		at     int64
 	}
-	done := make(chan ret, 1)
+	var r ret
+	done := make(chan struct{})
 	go func() {
 		err := c.RunContext(s.ctx)
 		atomic.StoreInt64(&s.returned, 1)
-		done <- ret{err, s.ctx.Err(), time.Now().UnixNano()}
+		r = ret{err, s.ctx.Err(), time.Now().UnixNano()}
+		close(done)
 	}()
-	timer := time.NewTimer(watchdog)
-	var r ret
-	select {
-	case r = <-done:
-		timer.Stop()
-	case <-timer.C:
+	if !await(done) {
 		o.Hung = true
 		atomic.StoreInt64(&s.kill, 1)
 		s.cancel()
-		t2 := time.NewTimer(watchdog)
-		select {
-		case r = <-done:
-			t2.Stop()
-		case <-t2.C:
+		if !await(done) {
 			markStale(s.vm)
 			o.Err = errors.New("c07: no return even after unwinding")
 			o.ErrText = o.Err.Error()
@@ -365,14 +359,8 @@ func runPlan(c *tengo.Compiled, pl plan, getVar string) *outcome {
 	if s.asyncCh != nil {
 		<-s.asyncCh
 	}
-	if s.getCh != nil {
-		t3 := time.NewTimer(watchdog)
-		select {
-		case <-s.getCh:
-			t3.Stop()
-		case <-t3.C:
-			o.GetStuck = true
-		}
+	if s.getCh != nil && !await(s.getCh) {
+		o.GetStuck = true
 	}
 	// (4) no goroutine left behind
 	t0 := time.Now()
@@ -429,12 +417,34 @@ func guarded(f func()) bool {
 		f()
 		close(done)
 	}()
-	t := time.NewTimer(watchdog)
-	defer t.Stop()
+	return await(done)
+}
+
+// await is the watchdog: it waits for done during 100 observed ticks of
+// 100 ms. Counting ticks this goroutine actually received (a Ticker drops the
+// ticks nobody collects) rather than reading the clock once keeps a test
+// process that was not scheduled for seconds - the machine may be heavily
+// oversubscribed - from reading its own starvation as "the call does not
+// return"; done is preferred when both are ready.
+func await(done <-chan struct{}) bool {
+	tick := time.NewTicker(watchdog / 100)
+	defer tick.Stop()
+	for i := 0; i < 100; i++ {
+		select {
+		case <-done:
+			return true
+		default:
+		}
+		select {
+		case <-done:
+			return true
+		case <-tick.C:
+		}
+	}
 	select {
 	case <-done:
 		return true
-	case <-t.C:
+	default:
 		return false
 	}
 }
@@ -458,18 +468,109 @@ func resetInputs(c *tengo.Compiled, p *program) string {
 	return msg
 }
 
-// globalsOf describes all variables of c.
-func globalsOf(c *tengo.Compiled) (desc string, names []string, stuck bool) {
-	ok := guarded(func() {
-		g := map[string]tengo.Object{}
-		for _, v := range c.GetAll() {
-			g[v.Name()] = v.Object()
-			names = append(names, v.Name())
+// describe renders a value like tv.Describe, but within a node budget: the
+// values of generated programs can be small DAGs whose tree expansion is
+// exponential (v = [v, v] in a loop). Over budget it returns tooLarge.
+const (
+	tooLarge   = "<TOO-LARGE>"
+	descBudget = 20000
+)
+
+type describer struct {
+	sb   strings.Builder
+	left int
+}
+
+func (d *describer) seq(tag string, xs []tengo.Object, depth int) bool {
+	d.sb.WriteString(tag + "[")
+	for i, x := range xs {
+		if i > 0 {
+			d.sb.WriteString(", ")
 		}
-		sort.Strings(names)
-		desc = bridge.DescribeGlobals(g, nil)
-	})
-	return desc, names, !ok
+		if !d.walk(x, depth+1) {
+			return false
+		}
+	}
+	d.sb.WriteString("]")
+	return true
+}
+
+func (d *describer) dict(tag string, m map[string]tengo.Object, depth int) bool {
+	keys := make([]string, 0, len(m))
+	for k := range m {
+		keys = append(keys, k)
+	}
+	sort.Strings(keys)
+	d.sb.WriteString(tag + "{")
+	for i, k := range keys {
+		if i > 0 {
+			d.sb.WriteString(", ")
+		}
+		fmt.Fprintf(&d.sb, "%q: ", k)
+		if !d.walk(m[k], depth+1) {
+			return false
+		}
+	}
+	d.sb.WriteString("}")
+	return true
+}
+
+func (d *describer) walk(o tengo.Object, depth int) bool {
+	d.left--
+	if d.left < 0 {
+		return false
+	}
+	if depth > 64 {
+		d.sb.WriteString("<DEEP>")
+		return true
+	}
+	switch v := o.(type) {
+	case *tengo.Array:
+		return d.seq("array", v.Value, depth)
+	case *tengo.ImmutableArray:
+		return d.seq("imm-array", v.Value, depth)
+	case *tengo.Map:
+		return d.dict("map", v.Value, depth)
+	case *tengo.ImmutableMap:
+		return d.dict("imm-map", v.Value, depth)
+	case *tengo.Error:
+		d.sb.WriteString("error(")
+		if !d.walk(v.Value, depth+1) {
+			return false
+		}
+		d.sb.WriteString(")")
+		return true
+	}
+	d.sb.WriteString(tv.Describe(o))
+	return true
+}
+
+func describe(o tengo.Object) string {
+	d := &describer{left: descBudget}
+	if !d.walk(o, 0) {
+		return tooLarge
+	}
+	return d.sb.String()
+}
+
+// globalsOf describes all variables of c. Only the call that needs the
+// object's lock runs under the watchdog; rendering does not.
+func globalsOf(c *tengo.Compiled) (desc string, names []string, stuck bool) {
+	var vars []*tengo.Variable
+	if !guarded(func() { vars = c.GetAll() }) {
+		return "", nil, true
+	}
+	by := map[string]tengo.Object{}
+	for _, v := range vars {
+		by[v.Name()] = v.Object()
+		names = append(names, v.Name())
+	}
+	sort.Strings(names)
+	var sb strings.Builder
+	for _, n := range names {
+		sb.WriteString(n + "=" + describe(by[n]) + ";")
+	}
+	return sb.String(), names, false
 }
 
 // baseline is the uncancelled behaviour of a program.
